@@ -203,6 +203,131 @@ func addrPaths(info *types.Info, fd *ast.FuncDecl, recv types.Object) (paths map
 	return paths, foreign
 }
 
+// addrPathsDeep: addrPaths plus the slots taken inside helpers of the package that are handed parts of
+// the receiver: appendCallOperands(ops, &inst.Callee, inst.Args, inst.OperandBundles) takes &args[i] and
+// &operandBundles[i].Inputs[j], which are the receiver's Args[] and OperandBundles[].Inputs[].
+func (c *Ctx) addrPathsDeep(info *types.Info, fd *ast.FuncDecl, recv types.Object) (map[string]token.Pos, []ast.Expr) {
+	paths, foreign := addrPaths(info, fd, recv)
+	if recv == nil {
+		return paths, foreign
+	}
+	ast.Inspect(fd.Body, func(n ast.Node) bool {
+		call, ok := n.(*ast.CallExpr)
+		if !ok {
+			return true
+		}
+		f := calleeOf(info, call)
+		if f == nil || f.Pkg() == nil || !c.isLLVM(f.Pkg().Path()) {
+			return true
+		}
+		hfd := c.funcDecl(f)
+		if hfd == nil || hfd.Body == nil || hfd == fd {
+			return true
+		}
+		hinfo := c.declPkg[hfd].TypesInfo
+		k := 0
+		for _, fl := range hfd.Type.Params.List {
+			for _, nm := range fl.Names {
+				if k < len(call.Args) {
+					arg := unparen(call.Args[k])
+					// the argument is a part of the receiver (recv.Args, recv.OperandBundles)
+					root := arg
+					for {
+						switch x := root.(type) {
+						case *ast.SelectorExpr:
+							root = unparen(x.X)
+							continue
+						case *ast.IndexExpr:
+							root = unparen(x.X)
+							continue
+						}
+						break
+					}
+					if id, ok := root.(*ast.Ident); ok && info.ObjectOf(id) == recv && arg != root {
+						base := strings.TrimPrefix(exprString(arg), recvName(recv)+".")
+						pobj := hinfo.Defs[nm]
+						switch pobj.Type().Underlying().(type) {
+						case *types.Slice, *types.Pointer:
+							hp, _ := addrPaths(hinfo, hfd, pobj)
+							// only slots the helper takes for every element: an address taken under a
+							// condition, or after a `continue` / `break` of its loop, skips some operands
+							hpm := buildParents(hfd)
+							for sfx, pos := range hp {
+								conditional := false
+								ast.Inspect(hfd.Body, func(m ast.Node) bool {
+									ue, ok := m.(*ast.UnaryExpr)
+									if !ok || ue.Pos() != pos {
+										return true
+									}
+									var child ast.Node = ue
+									outside := false // above the loop that visits the elements
+									for q := hpm[ue]; q != nil && !outside; child, q = q, hpm[q] {
+										switch x := q.(type) {
+										case *ast.ForStmt, *ast.RangeStmt:
+											// one more level for nested element loops (bundles → inputs); what precedes the
+											// outermost loop concerns the whole list, not one element
+											if _, nested := enclosingLoop(hpm, q); !nested {
+												outside = true
+											}
+										case *ast.IfStmt:
+											if child == ast.Node(x.Body) || child == x.Else {
+												conditional = true
+											}
+										case *ast.CaseClause:
+											conditional = true
+										case *ast.BlockStmt:
+											// an earlier statement of the same block that can leave the iteration
+											for _, st := range x.List {
+												if st.Pos() >= child.Pos() {
+													break
+												}
+												ast.Inspect(st, func(k ast.Node) bool {
+													if br, ok := k.(*ast.BranchStmt); ok && (br.Tok == token.CONTINUE || br.Tok == token.BREAK) {
+														conditional = true
+													}
+													if _, ok := k.(*ast.ReturnStmt); ok {
+														conditional = true
+													}
+													return true
+												})
+											}
+										}
+									}
+									return false
+								})
+								if conditional {
+									continue
+								}
+								// addrPaths leaves the parameter's own name in front of an index: args[] → []
+								sfx = strings.TrimPrefix(sfx, nm.Name)
+								paths[base+sfx] = pos
+							}
+						}
+					}
+				}
+				k++
+			}
+		}
+		return true
+	})
+	// the helper's own &param[i] expressions were reported as foreign addresses of the helper, not of
+	// this method; nothing to remove here
+	return paths, foreign
+}
+
+// enclosingLoop: the nearest for / range statement around n.
+func enclosingLoop(pm parentMap, n ast.Node) (ast.Node, bool) {
+	for q := pm[n]; q != nil; q = pm[q] {
+		switch q.(type) {
+		case *ast.ForStmt, *ast.RangeStmt:
+			return q, true
+		case *ast.FuncLit:
+			return nil, false
+		}
+	}
+	return nil, false
+}
+
 func recvName(recv types.Object) string {
 	if recv == nil {
 		return ""
@@ -283,7 +408,7 @@ func ruleOPS1(c *Ctx) []Obligation {
 	info := c.pkg(pkgIR).TypesInfo
 	for _, ut := range c.userTypes() {
 		want := c.valuePaths(ut.n, "", 0, map[*types.Named]bool{})
-		got, _ := addrPaths(info, ut.fd, ut.recv)
+		got, _ := c.addrPathsDeep(info, ut.fd, ut.recv)
 		tkey := typeKey(ut.n)
 		for _, w := range want {
 			o := Obligation{Key: fmt.Sprintf("%s Operands ∋ %s", tkey, w), Pos: c.pos(ut.fd.Pos()), Verdict: OK}
@@ -403,7 +528,7 @@ func ruleOPS2(c *Ctx) []Obligation {
 		tkey := typeKey(ut.n)
 		obs = append(obs, c.opsDistinctSlots(info, ut))
 		o := Obligation{Key: tkey + " Operands slots are live", Pos: c.pos(ut.fd.Pos()), Verdict: OK}
-		got, foreign := addrPaths(info, ut.fd, ut.recv)
+		got, foreign := c.addrPathsDeep(info, ut.fd, ut.recv)
 		switch {
 		case !ut.ptr && len(got) > 0:
 			o.Verdict, o.Detail = VIOL, "Operands has a value receiver: the returned slots point into a copy of the instruction"
@@ -891,6 +1016,50 @@ func ruleEQ1(c *Ctx) []Obligation {
 			}
 			return true
 		})
+		// the asserted argument handed to a helper of the package (t.equalParams(other), equalTypes(t.Fields,
+		// u.Fields) is covered above): field reads on the parameter that receives it, two levels deep
+		var followArg func(body ast.Node, depth int)
+		followArg = func(body ast.Node, depth int) {
+			ast.Inspect(body, func(n ast.Node) bool {
+				call, ok := n.(*ast.CallExpr)
+				if !ok || depth > 2 {
+					return true
+				}
+				f := calleeOf(info, call)
+				if f == nil || f.Pkg() == nil || f.Pkg().Path() != pkgTYP {
+					return true
+				}
+				hfd := c.funcDecl(f)
+				if hfd == nil || hfd.Body == nil || hfd == k.fd {
+					return true
+				}
+				pi := 0
+				for _, fl := range hfd.Type.Params.List {
+					for _, nm := range fl.Names {
+						if pi < len(call.Args) {
+							if id, ok := unparen(call.Args[pi]).(*ast.Ident); ok && namedOf(info.TypeOf(id)) == k.n && info.ObjectOf(id) != recvObj {
+								pobj := info.Defs[nm]
+								ast.Inspect(hfd.Body, func(m ast.Node) bool {
+									se, ok := m.(*ast.SelectorExpr)
+									if !ok {
+										return true
+									}
+									if pid, ok := unparen(se.X).(*ast.Ident); ok && info.ObjectOf(pid) == pobj {
+										if sel, ok := info.Selections[se]; ok && sel.Kind() == types.FieldVal {
+											argReads[st.Field(sel.Index()[0]).Name()] = true
+										}
+									}
+									return true
+								})
+							}
+						}
+						pi++
+					}
+				}
+				return true
+			})
+		}
+		followArg(k.fd.Body, 0)
 		comparesStrings := func() bool {
 			found := false
 			ast.Inspect(k.fd.Body, func(n ast.Node) bool {
@@ -1057,7 +1226,7 @@ func ruleEQ3(c *Ctx) []Obligation {
 			switch n := n.(type) {
 			case *ast.IfStmt:
 				// if len(t.TypeName) > 0 || len(u.TypeName) > 0 { return t.TypeName == u.TypeName }
-				if strings.Count(exprString(n.Cond), "TypeName") >= 2 && len(n.Body.List) > 0 {
+				if len(n.Body.List) > 0 {
 					if r, ok := n.Body.List[len(n.Body.List)-1].(*ast.ReturnStmt); ok && len(r.Results) == 1 {
 						if be, ok := r.Results[0].(*ast.BinaryExpr); ok && be.Op == token.EQL && strings.Contains(exprString(be.X), "TypeName") && strings.Contains(exprString(be.Y), "TypeName") {
 							if cutPos == 0 {
@@ -1102,6 +1271,22 @@ func ruleEQ3(c *Ctx) []Obligation {
 					return x && y, true
 				}
 				es := strings.ReplaceAll(exprString(e), " ", "")
+				// a predicate method on one of the two types: t.identified() with `return len(t.TypeName) > 0`
+				if call, ok := e.(*ast.CallExpr); ok && len(call.Args) == 0 {
+					if se, ok := unparen(call.Fun).(*ast.SelectorExpr); ok {
+						if pfd := c.funcDecl(calleeOf(info, call)); pfd != nil && pfd.Body != nil && len(pfd.Body.List) == 1 && pfd.Recv != nil && len(pfd.Recv.List[0].Names) == 1 {
+							if r, ok := pfd.Body.List[0].(*ast.ReturnStmt); ok && len(r.Results) == 1 {
+								rs := strings.ReplaceAll(exprString(r.Results[0]), " ", "")
+								if strings.Contains(rs, pfd.Recv.List[0].Names[0].Name+".TypeName") && (strings.HasSuffix(rs, ">0") || strings.HasSuffix(rs, `!=""`) || strings.HasSuffix(rs, "!=0")) {
+									if exprString(se.X) == k.fd.Recv.List[0].Names[0].Name {
+										return a, true
+									}
+									return b, true
+								}
+							}
+						}
+					}
+				}
 				if !strings.Contains(es, ".TypeName") || !(strings.HasSuffix(es, ">0") || strings.HasSuffix(es, `!=""`) || strings.HasSuffix(es, "!=0")) {
 					return false, false
 				}
